@@ -18,6 +18,11 @@ func genC04(t *rapid.T) CrashCase {
 	frag := GenConflictScenario(t)
 	at := rapid.IntRange(0, len(c.Ops)).Draw(t, "fragAt")
 	c.Ops = append(c.Ops[:at:at], append(frag, c.Ops[at:]...)...)
+	if rapid.Bool().Draw(t, "overtaken") {
+		frag := GenOvertakenCommit(t)
+		at := rapid.IntRange(0, len(c.Ops)).Draw(t, "fragAt2")
+		c.Ops = append(c.Ops[:at:at], append(frag, c.Ops[at:]...)...)
+	}
 	for i := range c.Ops {
 		if c.Ops[i].Len > 5000 {
 			c.Ops[i].Len %= 5000
